@@ -17,7 +17,7 @@ def run(ctx, replay):
     else:
         vlib.lake_build(["dvdriver"])
     src = os.path.join(vlib.HARNESS, "conc", "c36_chaselev.cpp")
-    exe, log = vlib.build_dsched_harness(src)
+    exe, log = vlib.build_dsched_harness(src, extra_flags=["-O0"])
     if not exe:
         ctx.broken.append(("harness:c36_chaselev", "does not compile against the current tree: " + log[-1500:]))
         return
